@@ -2,6 +2,8 @@ import TantivyModel.Proofs.Merge
 import TantivyModel.Proofs.MergeSteps3
 import TantivyModel.Proofs.MergeWF
 import TantivyModel.Proofs.MergeKeys
+import TantivyModel.Proofs.MergeAssoc
+import TantivyModel.Proofs.MergeShuffled
 import TantivyModel.Proofs.MergeMulti5
 /-!
 # C04 — Merging never changes the logical content of the index
@@ -138,6 +140,54 @@ theorem C04_merged_dictionary_sorted {α} (segs : List (Segment α)) :
 
 example : (mergeModel exSegsFwd).terms.map (·.1) = [[97], [98], [99]] := by decide
 
+/-- ANY DOC-ID MAPPING (`MappingType::Shuffled`, the merges of a sorted index, where the new→old
+table is produced by a k-way merge on the sort key). For every duplicate-free table of existing
+document addresses: the filled old→new tables invert it; new document `n` carries the
+per-document data (stored fields, norms, fast values) of the old document at `tbl[n]`; and for
+EVERY term the posting the merger writes for `n` — after remapping all sources and sorting by
+the new doc id — is the posting of that old document, tf and positions unchanged (none if it
+did not contain the term). Nothing about the order of the table is assumed, so this covers the
+stacked and the sorted branches of `IndexMerger::write` alike, document by document. -/
+theorem C04_any_mapping_docview {α} (segs : List (Segment α)) (tbl : List (Nat × Nat))
+    (hnd : tbl.Nodup)
+    (hb : ∀ a ∈ tbl, ∃ seg, segs[a.1]? = some seg ∧ a.2 < seg.alive.length)
+    (hlen : ∀ s ∈ segs, s.docs.length = s.alive.length)
+    (hpost : ∀ s ∈ segs, ∀ t ∈ s.terms, postingsOk s.alive.length t.2 = true)
+    (n s d : Nat) (seg : Segment α) (hn : tbl[n]? = some (s, d)) (hs : segs[s]? = some seg) :
+    getAddr (fillFrom (emptyTables segs) 0 tbl) s d = some n ∧
+    (shuffledDocs segs tbl)[n]? = seg.docs[d]? ∧
+    ∀ k : Key,
+      ((shuffledPostings segs tbl k).find? fun p => p.doc == n).map (fun p => (p.tf, p.pos))
+        = ((postingsOf seg.terms k).find? fun p => p.doc == d).map fun p => (p.tf, p.pos) := by
+  have hb' : ∀ a ∈ tbl, inB (emptyTables segs) a.1 a.2 :=
+    fun a ha => (inB_emptyTables segs a.1 a.2).2 (hb a ha)
+  exact ⟨(fill_inverse segs tbl hnd hb' s d n).2 hn,
+    shuffledDocs_getElem? segs tbl hlen hb n s d seg hn hs,
+    fun k => shuffled_find segs tbl hnd hb' hpost k n s d seg hn hs⟩
+
+/-- THE DOC STORE OF A SHUFFLED MERGE. `write_storable_fields` does not look documents up by
+address there: it keeps one iterator per source over its ALIVE documents and takes the next one
+for every table entry. If the table lists every source's live documents exactly once and in
+doc-id order (which a k-way merge of the per-source iterators does), the iterators never run dry
+("unexpected missing document" cannot occur) and deliver exactly the documents the table asks
+for — the same documents `C04_any_mapping_docview` attaches norms, fast values and postings to. -/
+theorem C04_shuffled_store_iterators {α} (segs : List (Segment α)) (tbl : List (Nat × Nat))
+    (hlen : ∀ s ∈ segs, s.docs.length = s.alive.length)
+    (hsrc : ∀ s seg, segs[s]? = some seg → (tbl.filter fun a => a.1 == s).map (·.2) = liveIds seg.alive)
+    (hb : ∀ a ∈ tbl, ∃ seg, segs[a.1]? = some seg ∧ a.2 < seg.alive.length) :
+    storeIter (storeIters segs) tbl = some (shuffledDocs segs tbl) :=
+  storeIter_copyDocs segs tbl hlen hsrc hb
+
+example : storeIter (storeIters exSegsFwd) [(2, 0), (0, 0), (2, 1), (0, 2)] = some [4, 7, 5, 9] := by decide
+/-- a table that asks for a source's documents out of order gets the wrong documents -/
+example : storeIter (storeIters exSegsFwd) [(2, 1), (0, 0), (2, 0), (0, 2)] = some [4, 7, 5, 9]
+    ∧ shuffledDocs exSegsFwd [(2, 1), (0, 0), (2, 0), (0, 2)] = [5, 7, 4, 9] := by decide
+
+/-- a sorted-index style mapping over `exSegsFwd`: live docs in the order (2,1), (0,0), (2,0), (0,2) -/
+example := C04_any_mapping_docview exSegsFwd [(2, 1), (0, 0), (2, 0), (0, 2)] (by decide)
+  (by decide) (by decide) (by decide) 2 2 0 _ rfl rfl
+example : (shuffledDocs exSegsFwd [(2, 1), (0, 0), (2, 0), (0, 2)]) = [5, 7, 4, 9] := by decide
+
 /-- CLOSURE UNDER RE-MERGING. The merged segment is again a well-formed merge source: per-doc
 data and alive bitset have equal length, and every posting list of its dictionary is strictly
 increasing in doc id with all ids below `max_doc` (so block encoding and skip lists see what they
@@ -162,6 +212,74 @@ theorem C04_merge_translation_iterated {α} (groups : List (List (Segment α)))
   · intro s hs
     obtain ⟨g, hg, rfl⟩ := List.mem_map.1 hs
     exact (mergeModel_wf g (hlen g hg) (hpost g hg)).2
+
+/-- MERGE OF MERGES, per-document data: merge every group of sources, then merge the results —
+the stored fields / norms / fast values of the final segment are those of the live documents of
+ALL original sources, in order (the documents component of
+`C04_merge_of_merges`). -/
+theorem C04_merge_of_merges_docs {α} (groups : List (List (Segment α)))
+    (hlen : ∀ g ∈ groups, ∀ s ∈ g, s.docs.length = s.alive.length)
+    (hpost : ∀ g ∈ groups, ∀ s ∈ g, ∀ t ∈ s.terms, postingsOk s.alive.length t.2 = true) :
+    (dump (mergeModel (groups.map mergeModel))).docs = (mergeSpec groups.flatten).docs := by
+  have hwf : ∀ s ∈ groups.map mergeModel, s.docs.length = s.alive.length := by
+    intro s hs
+    obtain ⟨g, hg, rfl⟩ := List.mem_map.1 hs
+    exact (mergeModel_wf g (hlen g hg) (hpost g hg)).1
+  have hflat : ∀ s ∈ groups.flatten, s.docs.length = s.alive.length := by
+    intro s hs
+    obtain ⟨g, hg, hsg⟩ := List.mem_flatten.1 hs
+    exact hlen g hg s hsg
+  rw [mergeModel_docs _ hwf, mergeSpec_docs _ hwf, mergeSpec_docs _ hflat, List.map_map]
+  have : (groups.map ((fun s : Segment α => liveDocs s.docs s.alive) ∘ mergeModel))
+      = groups.map fun g => (g.map fun s => liveDocs s.docs s.alive).flatten := by
+    apply List.map_congr_left
+    intro g hg
+    exact mergeModel_liveDocs g (hlen g hg)
+  rw [this]
+  exact flatten_groups _ groups
+
+/-- MERGE OF MERGES (associativity of merging at the logical level): merge every group of
+sources, then merge the results — the final segment has exactly the logical content of ALL the
+original sources concatenated: live documents in order with their stored fields / norms / fast
+values, and for every term the (doc, tf, positions) of the live documents. By induction on the
+merge tree this is the history invariant "the logical content of the index is the concatenation
+of the logical contents of its segments, and every merge, of fresh or of merged segments,
+preserves it". -/
+theorem C04_merge_of_merges {α} (groups : List (List (Segment α)))
+    (hlen : ∀ g ∈ groups, ∀ s ∈ g, s.docs.length = s.alive.length)
+    (hpost : ∀ g ∈ groups, ∀ s ∈ g, ∀ t ∈ s.terms, postingsOk s.alive.length t.2 = true) :
+    dump (mergeModel (groups.map mergeModel)) = mergeSpec groups.flatten := by
+  have h1 := C04_merge_translation_iterated groups hlen hpost
+  have hd := C04_merge_of_merges_docs groups hlen hpost
+  have ht := mergeSpec_terms_merge_of_merges groups hlen hpost
+  rw [h1] at hd ⊢
+  cases e1 : mergeSpec (groups.map mergeModel) with
+  | mk d1 t1 =>
+    cases e2 : mergeSpec groups.flatten with
+    | mk d2 t2 =>
+      rw [e1, e2] at hd ht
+      simp only at hd ht
+      rw [hd, ht]
+
+/-- `IndexMerger::open` keeps only the sources that still hold a live document as readers
+(`mergeReaders`). Merging the readers gives exactly the logical content of ALL the sources:
+the dropped ones contribute no document and no live posting, and a term that occurs only in
+dropped sources disappears on both sides. -/
+theorem C04_readers_drop_empty_sources {α} (segs : List (Segment α))
+    (hlen : ∀ s ∈ segs, s.docs.length = s.alive.length)
+    (hpost : ∀ s ∈ segs, ∀ t ∈ s.terms, postingsOk s.alive.length t.2 = true) :
+    dump (mergeModel (mergeReaders segs)) = mergeSpec segs := by
+  rw [C04_merge_translation (mergeReaders segs)
+    (fun s hs => hlen s (List.mem_filter.1 hs).1) (fun s hs => hpost s (List.mem_filter.1 hs).1)]
+  exact mergeSpec_filter_hasLive segs hlen hpost
+
+/-- per term: the live posting list of every key over the merged groups is the one over all
+original sources -/
+theorem C04_merge_of_merges_postings {α} (groups : List (List (Segment α)))
+    (hlen : ∀ g ∈ groups, ∀ s ∈ g, s.docs.length = s.alive.length)
+    (hpost : ∀ g ∈ groups, ∀ s ∈ g, ∀ t ∈ s.terms, postingsOk s.alive.length t.2 = true) (k : Key) :
+    specPostings k (groups.map mergeModel) = specPostings k groups.flatten :=
+  specPostings_merge_of_merges groups hlen hpost k
 
 /-- Translation of postings, per source (the step `write_postings_for_field` performs for each
 `(term, source)` pair): the posting list of source `s` remapped through the filled old→new table
@@ -245,8 +363,15 @@ example : mergedTermFrom (oldToNew exSegs) [98] 0 exSegs = (1, [⟨1, 1, [5]⟩]
 example : (mergeModel exSegs).docs.length = (mergeModel exSegs).alive.length ∧
     ∀ t ∈ (mergeModel exSegs).terms, postingsOk (mergeModel exSegs).alive.length t.2 = true :=
   C04_merged_wellformed exSegs (by decide) (by decide)
+example : (dump (mergeModel ([exSegs, exSegs.take 1].map mergeModel))).docs = (mergeSpec ([exSegs, exSegs.take 1].flatten)).docs :=
+  C04_merge_of_merges_docs [exSegs, exSegs.take 1] (by decide) (by decide)
+example : dump (mergeModel ([exSegs, exSegs.take 1].map mergeModel)) = mergeSpec ([exSegs, exSegs.take 1].flatten) :=
+  C04_merge_of_merges [exSegs, exSegs.take 1] (by decide) (by decide)
 example : dump (mergeModel ([exSegs, exSegs.take 1].map mergeModel)) = mergeSpec ([exSegs, exSegs.take 1].map mergeModel) :=
   C04_merge_translation_iterated [exSegs, exSegs.take 1] (by decide) (by decide)
+example : (mergeReaders exSegs).length = 2 := by decide
+example : dump (mergeModel (mergeReaders exSegs)) = mergeSpec exSegs :=
+  C04_readers_drop_empty_sources exSegs (by decide) (by decide)
 example : dump (mergeModel exSegs) = mergeSpec exSegs :=
   C04_merge_translation exSegs (by decide) (by decide)
 example : mergedStore (fun i => i == 2) 0 exSegs = [7, 9, 4, 5] := by decide
@@ -515,10 +640,10 @@ that the merged entry takes its cursor AFTER `advance_deletes` (so all sources s
 committed sources are already advanced to the target, the `contains_all` staleness rule and
 the reconciliation in `end_merge` are exactly what the invariant (`Proofs/MergeInv.lean`, `Inv`,
 `RunInv`) needs to go through every step. -/
-theorem C04_merge_invisible_all_traces (evs : List Ev) :
+theorem C04_merge_invisible_all_traces (evs : List Ev) (hok : OkTrace Sys.init evs) :
     (pubDocs (Sys.init.run evs).st).Perm (Abs.init.run evs).pub ∧
     (pendDocs (Sys.init.run evs).st).Perm (Abs.init.run evs).pend :=
-  (run_all evs Sys.init Abs.init inv_init rel_init).2
+  (run_all evs Sys.init Abs.init inv_init rel_init hok).2
 
 /-- The same theorem about the machine the DRIVER executes (`runG`), whose behaviour at the four
 places the seeded changes touched is selected by guards extracted from the current source
@@ -526,19 +651,19 @@ places the seeded changes touched is selected by guards extracted from the curre
 by register, `end_merge` cancelled unless one register holds ALL sources, reconciliation before
 the swap. While the guards hold, `runG = run`; when one flips, the equality lemmas no longer
 compile (this theorem is reported broken) and the executable model follows the changed code. -/
-theorem C04_merge_invisible_all_traces_extracted (evs : List Ev) :
+theorem C04_merge_invisible_all_traces_extracted (evs : List Ev) (hok : OkTrace Sys.init evs) :
     (pubDocs (Sys.init.runG evs).st).Perm (Abs.init.run evs).pub ∧
     (pendDocs (Sys.init.runG evs).st).Perm (Abs.init.run evs).pend := by
   rw [runG_eq]
-  exact C04_merge_invisible_all_traces evs
+  exact C04_merge_invisible_all_traces evs hok
 
 example : Gen.MERGE_CURSOR_AFTER_ADVANCE = 1 ∧ Gen.MERGE_TARGET_BY_REGISTER = 1
     ∧ Gen.END_MERGE_REQUIRES_ALL_SOURCES = 1 ∧ Gen.END_MERGE_RECONCILES = 1 := by decide
 
 /-- in terms of the ids a searcher sees (`publishedUids` is what the driver prints) -/
-theorem C04_published_uids_all_traces (evs : List Ev) :
+theorem C04_published_uids_all_traces (evs : List Ev) (hok : OkTrace Sys.init evs) :
     (publishedUids (Sys.init.run evs).st).Perm ((Abs.init.run evs).pub.map (·.uid)) := by
-  have h := (C04_merge_invisible_all_traces evs).1
+  have h := (C04_merge_invisible_all_traces evs hok).1
   have e : publishedUids (Sys.init.run evs).st = (pubDocs (Sys.init.run evs).st).map (·.uid) := by
     simp only [publishedUids, pubDocs, List.map_flatten, List.map_map]
     rfl
@@ -568,10 +693,48 @@ the next commit would publish are those of the sequential replay. This is where 
 shared a source with it has lost that source from its register and will be cancelled
 (`runInv_after_other_end`), while merges over disjoint sources are untouched. The machine is the
 guard-selected one the driver executes (`stepG` / `endMergeG`). -/
-theorem C04_merge_invisible_concurrent_merges (evs : List EvM) :
+theorem C04_merge_invisible_concurrent_merges (evs : List EvM) (hok : OkTraceM SysM.init evs) :
     (pubDocs (SysM.init.run evs).st).Perm (Abs.init.run (evs.map EvM.toEv)).pub ∧
     (pendDocs (SysM.init.run evs).st).Perm (Abs.init.run (evs.map EvM.toEv)).pend :=
-  (runM_all evs SysM.init Abs.init invM_init rel_init).2
+  (runM_all evs SysM.init Abs.init invM_init rel_init hok).2
+
+/-- EXPLICIT MERGES are events too (`startMergeExplicit`: target = commit opstamp for either
+register, as `make_merge_operation` computes it). The only side condition of the all-sequences
+theorems is `OkTrace(M)`: whenever an explicit merge of UNCOMMITTED segments is issued, its sources
+sit at one delete-cursor position. Sequences without explicit merges — and explicit merges of
+committed segments — need nothing: -/
+theorem C04_merge_invisible_policy_only (evs : List EvM) (h : evs.all noExplicitM = true) :
+    (pubDocs (SysM.init.run evs).st).Perm (Abs.init.run (evs.map EvM.toEv)).pub ∧
+    (pendDocs (SysM.init.run evs).st).Perm (Abs.init.run (evs.map EvM.toEv)).pend :=
+  C04_merge_invisible_concurrent_merges evs (okTraceM_of_noExplicit evs _ h)
+
+/-- … and the side condition cannot be dropped: the recorded finding
+`C04:explicit-merge-uncommitted-first-cursor` as an event sequence of the machine. Doc 10 (key 1)
+is flushed, key 1 is deleted, doc 20 (key 1) is flushed, both uncommitted segments are merged
+explicitly, commit: the replay publishes `[20]`, the machine (like the real writer) nothing. -/
+theorem C04_explicit_uncommitted_trace_counterexample :
+    let evs : List Ev := [.addSeg [⟨10, [1]⟩], .delete 1, .addSeg [⟨20, [1]⟩],
+                          .startMergeExplicit [0, 1], .endMerge, .commit]
+    publishedUids (Sys.init.run evs).st = [] ∧ (Abs.init.run evs).pub.map (·.uid) = [20] ∧
+    ¬ OkTrace Sys.init evs := by
+  refine ⟨by decide, by decide, ?_⟩
+  intro h
+  obtain ⟨_, _, _, h4, _⟩ := h
+  obtain ⟨c0, hc0⟩ := h4 rfl (by decide) (by decide)
+  have h0 := hc0 ⟨0, [⟨10, [1]⟩], [true], 0⟩ (by decide)
+  have h1 := hc0 ⟨1, [⟨20, [1]⟩], [true], 1⟩ (by decide)
+  have e0 : (advance [⟨1, 1⟩] ⟨0, [⟨10, [1]⟩], [true], 0⟩ 0).cursor = 0 := by decide
+  have e1 : (advance [⟨1, 1⟩] ⟨1, [⟨20, [1]⟩], [true], 1⟩ 0).cursor = 1 := by decide
+  have h0' : (0 : Nat) = c0 := e0.symm.trans h0
+  have h1' : (1 : Nat) = c0 := e1.symm.trans h1
+  omega
+
+/-- an explicit merge of uncommitted segments flushed with no delete in between is covered -/
+example : OkTrace Sys.init [.addSeg [⟨10, [1]⟩], .addSeg [⟨20, [1]⟩], .delete 1,
+    .startMergeExplicit [0, 1], .endMerge, .commit] := by
+  refine ⟨trivial, trivial, trivial, ?_, trivial, trivial, trivial⟩
+  intro _ _ _
+  exact ⟨0, by decide⟩
 
 /-- A STALE MERGE IS NEVER PUBLISHED (any number of merges in flight, any history): when the
 i-th running merge ends and some source of it is no longer registered — not ALL of its sources
@@ -608,6 +771,29 @@ theorem C04_first_source_only_counterexample :
     publishedUids (endMergeFirstOnly (endMerge st r2) r1) = [11, 12, 10, 11] := by
   decide
 
+/-- `remove_empty_segments` (run whenever meta.json is written) is an event of both machines
+(`Ev.removeEmpty`), so the all-sequences theorems cover it: committed segments without a live
+document may leave the register and meta.json at any point. By itself the step changes neither
+what a searcher sees nor what the next commit publishes; its only effect is that a running merge
+with such a segment among its sources becomes stale (and is then cancelled, see the trace below). -/
+theorem C04_remove_empty_invisible (st : State) :
+    pubDocs (removeEmpty st) = pubDocs st ∧ pendDocs (removeEmpty st) = pendDocs st := by
+  constructor
+  · simp only [pubDocs, removeEmpty]
+    exact flatten_filter_nonEmpty _ liveDocsOf (fun e _ h => nonEmpty_false_live e h)
+  · simp only [pendDocs, removeEmpty, List.map_append, List.flatten_append]
+    rw [flatten_filter_nonEmpty _ _ (fun e _ h => docsAll_nil_of_live_nil _ e (nonEmpty_false_live e h))]
+
+/-- a merge of segments 0 and 1 is running; a committed delete empties segment 1, which is then
+removed; the merge finds a source missing and is cancelled; documents 10 and 12 stay published -/
+def exTraceRE : List EvM :=
+  [.addSeg [⟨10, [1]⟩], .commit, .addSeg [⟨11, [2]⟩], .commit, .addSeg [⟨12, [3]⟩], .commit,
+   .startMerge [0, 1], .delete 2, .commit, .removeEmpty, .endMerge 0]
+
+example : (SysM.init.run (exTraceRE.take 10)).st.committed.map (·.segId) = [2, 0] := by decide
+example : (SysM.init.run exTraceRE).st.committed.map (·.segId) = [2, 0]
+    ∧ publishedUids (SysM.init.run exTraceRE).st = [12, 10] := by decide
+
 /-- three committed segments; two merges that share segment 1 run at once, a delete is committed
 meanwhile; the first to end is swapped in (with reconciliation), the second finds a source
 missing and is cancelled; a third merge of uncommitted segments overlaps a fourth -/
@@ -617,6 +803,7 @@ def exTraceM : List EvM :=
    .addSeg [⟨13, [3]⟩], .addSeg [⟨14, [3]⟩], .addSeg [⟨15, [4]⟩],
    .startMerge [5, 6], .startMerge [6, 7], .delete 3, .endMerge 0, .endMerge 0, .commit]
 
+example : OkTraceM SysM.init exTraceM := okTraceM_of_noExplicit exTraceM _ (by decide)
 example : publishedUids (SysM.init.run exTraceM).st = [15, 11] := by decide
 example : (SysM.init.run (exTraceM.take 11)).st.committed.map (·.segId) = [0, 4] := by decide
 example : (SysM.init.run (exTraceM.take 12)).st.committed.map (·.segId) = [0, 4] := by decide
@@ -631,6 +818,7 @@ def exTrace : List Ev :=
    .addSeg [⟨14, [3]⟩], .addSeg [⟨15, [3]⟩], .startMerge [4, 5], .delete 3, .rollback, .endMerge,
    .addSeg [⟨16, [2]⟩], .delete 2, .commit]
 
+example : OkTrace Sys.init exTrace := okTrace_of_noExplicit exTrace _ (by decide)
 example : publishedUids (Sys.init.run exTrace).st = [13] := by decide
 example : publishedUids (Sys.init.run (exTrace.take 9)).st = [13, 11] := by decide
 example : (Abs.init.run exTrace).pub.map (·.uid) = [13] := by decide
